@@ -83,6 +83,7 @@ type Event struct {
 	Site  *CallSite
 	Instr ssa.Instruction
 	NCond int // number of path conditions in force when the event happened (index into the path's Conds)
+	Own   []Cond // further conditions in force for this event only: those of the way through a callee it lies on, when ways that differ in nothing but pure computation were joined into one outcome
 
 	Buf     *Val       // buffer operated on
 	IntType types.Type // INT atoms
